@@ -63,7 +63,7 @@ BOUND = {
     'forms x 2 routes, numeric loops 1..50 rows x 1..6 cols x {plain, variances} x 3 dtypes, block item sequences <= 3 over 8 '
     'items x 12 comment/schema variants, 1..3 blocks over the name alphabet, all builder call sequences of length <= 3 '
     'over 26 operations (18279), S x 9 builder string slots; modify-after-write: all mutator sequences of length <= 2 '
-    'for Loop (36 mutators) and Chunk (44), <= 3 for Block (22) and the saved builder (12)',
+    'for Loop (45 mutators) and Chunk (44), <= 3 for Block (21) and the saved builder (12)',
     'thorough': 'same with 16^4 2x2 loops, 76^3 1x3 and 3x1 loops, and all builder sequences of length 4 over the '
     '10-operation core; modify-after-write sequences of length 3 for Loop and Chunk',
 }
